@@ -226,6 +226,34 @@ def dist_fields(obj):
     raise ValueError(n)
 
 
+def model_arrays(kind, model, posterior=None, with_weight=True):
+    """the same canonical fields as raw double arrays (for the fine residuals)"""
+    out = []
+    if with_weight:
+        out.append(np.asarray(model.weight, dtype=float))
+    for attr in ('cacg', 'complex_watson', 'complex_bingham', 'gaussian', 'vmf'):
+        if attr in getattr(model, '__dataclass_fields__', {}):
+            out.extend(dist_arrays(getattr(model, attr)))
+    if posterior is not None:
+        out.append(np.asarray(posterior))
+    return out
+
+
+def dist_arrays(obj):
+    n = type(obj).__name__
+    if n in ('ComplexAngularCentralGaussian', 'ComplexBingham'):
+        return [_cov_from_eig(obj.covariance_eigenvectors, obj.covariance_eigenvalues), np.sort(obj.covariance_eigenvalues, axis=-1)]
+    if n == 'ComplexWatson':
+        return [np.einsum('...a,...b->...ab', obj.mode, np.conj(obj.mode)), np.asarray(obj.concentration)]
+    if n in ('Gaussian', 'DiagonalGaussian', 'SphericalGaussian'):
+        return [np.asarray(obj.mean), np.asarray(obj.covariance)]
+    if n == 'VonMisesFisher':
+        return [np.asarray(obj.mean), np.asarray(obj.concentration)]
+    if n == 'ComplexCircularSymmetricGaussian':
+        return [np.asarray(obj.covariance)]
+    raise ValueError(n)
+
+
 def model_fields(kind, model, posterior=None, with_weight=True):
     out = []
     if with_weight:
@@ -238,7 +266,40 @@ def model_fields(kind, model, posterior=None, with_weight=True):
     return out
 
 
-def twin_record(rel, A, B, *, kind, wca=(-1,), pi=None, lead=None, slack=256, exc='', exc_clause='raises', fp='', key=''):
+CLASS_AX = dict(posterior=-2, weight=-2, cacg_covariance=-3, cacg_eigenvalues=-2, watson_mode_outer=-3, watson_concentration=-1,
+                bingham_covariance=-3, bingham_eigenvalues=-2, gaussian_mean=-2, gaussian_covariance_full=-3,
+                gaussian_covariance_diagonal=-2, gaussian_covariance_spherical=-1, vmf_mean=-2, vmf_concentration=-1, log_pdf=-2,
+                log_likelihood=0)
+
+
+def _unflat(f):
+    d = f['t']['data']
+    if f['cplx']:
+        a = np.array([enc.unflt(x[0]) + 1j * enc.unflt(x[1]) for x in d])
+    else:
+        a = np.array([enc.unflt(x) for x in d])
+    return a.reshape(f['t']['shape'])
+
+
+def twin_record(rel, A, B, *, kind, wca=(-1,), pi=None, lead=None, slack=256, exc='', exc_clause='raises', fp='', key='',
+                fine=0, raw=None):
+    """fine < 0: also log the double-precision residual B - A o Map (raw = (list of A arrays, list of B arrays) by field
+    order); TLC checks it is consistent with the Flt difference and bounded by 2^fine (|a|+|b|+floor)."""
     wl = [wca] if isinstance(wca, int) else [int(a) for a in wca]
-    return dict(kind='twin', rel=rel, A=A or [], B=B or [], pi=pi or [], lead=lead or [], slack=int(slack),
-                integration=kind in INTEGRATION, wca=wl, exc=exc, exc_clause=exc_clause, fp=fp, key=key)
+    rec = dict(kind='twin', rel=rel, A=A or [], B=B or [], pi=pi or [], lead=lead or [], slack=int(slack), fine=int(fine), R=[],
+               integration=kind in INTEGRATION, wca=wl, exc=exc, exc_clause=exc_clause, fp=fp, key=key)
+    if fine < 0 and A and B and raw is not None and rel in ('same', 'perm'):
+        R = []
+        for fa, a, b in zip(A, raw[0], raw[1]):
+            a = np.asarray(a)
+            b = np.asarray(b)
+            if rel == 'perm':
+                cax = CLASS_AX[fa['name']]
+                if fa['name'] == 'weight' and kind in INTEGRATION:
+                    axes = sorted(x % 3 for x in wl)
+                    cax = 0 if 1 in axes else (-1 if 2 in axes else -2)
+                if cax != 0 and a.ndim >= -cax and a.shape[cax] > 1:
+                    a = np.take(a, pi, axis=cax)
+            R.append(_field(fa['name'], b - a, fa['cplx']))
+        rec['R'] = R
+    return rec
